@@ -1,4 +1,4 @@
-from decimal import Decimal
+from decimal import Decimal, InvalidOperation
 
 from typedpy.structures import ImmutableField, Field
 from typedpy.commons import wrap_val
@@ -45,24 +45,32 @@ class Number(Field):
 
         if not is_number(value):
             raise TypeError(f"{err_prefix()}Expected a number")
-        if (
-            isinstance(self.multiplesOf, float)
-            and int(value / self.multiplesOf) != value / self.multiplesOf
-            or isinstance(self.multiplesOf, int)
-            and value % self.multiplesOf
-        ):
-            raise ValueError(
-                f"{err_prefix()}Expected a a multiple of {self.multiplesOf}"
-            )
-        if (is_number(self.minimum)) and self.minimum > value:
-            raise ValueError(f"{err_prefix()}Expected a minimum of {self.minimum}")
-        if is_number(self.maximum):
-            if self.exclusiveMaximum and self.maximum == value:
+        try:
+            if (
+                isinstance(self.multiplesOf, float)
+                and int(value / self.multiplesOf) != value / self.multiplesOf
+                or isinstance(self.multiplesOf, int)
+                and value % self.multiplesOf
+            ):
                 raise ValueError(
-                    f"{err_prefix()}Expected a maximum of less than {self.maximum}"
+                    f"{err_prefix()}Expected a a multiple of {self.multiplesOf}"
                 )
-            if self.maximum < value:
-                raise ValueError(f"{err_prefix()}Expected a maximum of {self.maximum}")
+            if (is_number(self.minimum)) and self.minimum > value:
+                raise ValueError(f"{err_prefix()}Expected a minimum of {self.minimum}")
+            if is_number(self.maximum):
+                if self.exclusiveMaximum and self.maximum == value:
+                    raise ValueError(
+                        f"{err_prefix()}Expected a maximum of less than {self.maximum}"
+                    )
+                if self.maximum < value:
+                    raise ValueError(
+                        f"{err_prefix()}Expected a maximum of {self.maximum}"
+                    )
+        except InvalidOperation as ex:
+            # a NaN cannot be ordered against a Decimal bound
+            raise ValueError(
+                f"{err_prefix()}Expected a number that can be compared with the bounds"
+            ) from ex
 
     def _validate(self, value):
         Number._validate_static(self, value)
